@@ -350,6 +350,7 @@ def run(ctx: Ctx):
                f"error_rate is called with {kw}; --costs is documented as INS DEL SUB", rel, c.lineno, sample=kw)
     _per_utterance_divisors(ctx)
     _inferred_length_nonnegative(ctx)
+    _segments_and_list_lines(ctx)
     _token_tables_and_segments(ctx)
     plumbing(ctx, "S1")
     return dict(
@@ -367,6 +368,66 @@ def run(ctx: Ctx):
         not_decided=["command inverse pairs on data", "pooled moments values", "error totals values"],
         assumptions=["Pool.imap_unordered returns each result exactly once", "integer sums are order-insensitive"],
     )
+
+
+def _segments_and_list_lines(ctx: Ctx):
+    """S8: (a) a stored token segment is valid when 0 <= start <= end: a zero-length segment (a point-tier mark, a 0-duration ctm
+    entry) has both boundaries and length 0 and belongs to the pooled length moments; a strict `start < end` drops it, warns about
+    a token that is complete, and makes --strict refuse well-formed data. (b) Lines of a list file are stripped with strip(): a
+    slice `[:-1]` cuts the last character of the last id when the file does not end in a newline, and the id then silently matches
+    nothing."""
+    from sa.astutil import oriented
+    col, pkg = ctx.col, ctx.pkg
+    f = pkg.func("command_line::_print_torch_ref_data_dir_length_moments")
+    rel = f.module.relname
+
+    def col_of(e):
+        if isinstance(e, ast.Subscript) and isinstance(e.slice, ast.Tuple) and len(e.slice.elts) == 2 and isinstance(e.slice.elts[1], ast.Constant):
+            return e.slice.elts[1].value
+        return None
+    ords = []
+    from sa.inline import Inliner as _InlSeg
+    _inl_seg = _InlSeg(f.node)
+    for n in own_nodes(f.node):
+        if isinstance(n, ast.Compare) and len(n.ops) == 1:
+            n = _inl_seg.expand(n)  # named columns (`starts, ends = ref[:, 1], ref[:, 2]`) are looked through
+            a, b = n.left, n.comparators[0]
+            if {col_of(a), col_of(b)} == {1, 2} and u(getattr(a, "value", a)) == u(getattr(b, "value", b)):
+                o = oriented(n, lambda e: col_of(e) == 1)
+                if o:
+                    ords.append((n, o[0]))
+    col.floor("segment_order_tests", len(ords), 1)
+    bad = [n for n, op in ords if op not in ("le",)]
+    col.ob("G12", "S8", f"{rel}::_print_torch_ref_data_dir_length_moments::zero-length-segments-are-segments", not bad,
+           (f"`{u(bad[0])}` requires start < end: a token whose start equals its end (a point, a 0-duration entry) is dropped from the "
+            f"moments, reported as having missing boundaries, and refused under --strict") if bad else "", rel,
+           bad[0].lineno if bad else f.line, sample=[op for _, op in ords])
+    # (b) over all commands
+    n_lines, cut = 0, []
+    mod = pkg.module("command_line")
+    for g in pkg.all_functions():
+        if g.module is not mod:
+            continue
+        for n in own_nodes(g.node):
+            gens = []
+            if isinstance(n, (ast.GeneratorExp, ast.ListComp, ast.SetComp)):
+                gens = [(gen.target, gen.iter, [n.elt]) for gen in n.generators]
+            elif isinstance(n, ast.For):
+                gens = [(n.target, n.iter, n.body)]
+            for tgt, it, body in gens:
+                if not (isinstance(tgt, ast.Name) and "file" in u(it)):
+                    continue
+                n_lines += 1
+                for b_ in body:
+                    for x in ast.walk(b_):
+                        if isinstance(x, ast.Subscript) and isinstance(x.value, ast.Name) and x.value.id == tgt.id and isinstance(x.slice, ast.Slice) \
+                                and x.slice.lower is None and u(x.slice.upper or ast.Constant(value=None)) == "-1":
+                            cut.append((g, x))
+    col.count("list_file_line_loops", n_lines)
+    col.ob("G4", "S8", "command_line.py::list-file-lines-are-stripped-not-sliced", not cut,
+           (f"`{u(cut[0][1])}` in {cut[0][0].qualname} removes the line terminator by slicing off the last character: the last line of a file "
+            f"without a trailing newline loses a real character and the utterance it names is silently not selected") if cut else "",
+           "command_line.py", cut[0][1].lineno if cut else 1, sample=n_lines)
 
 
 def _per_utterance_divisors(ctx: Ctx):
